@@ -250,24 +250,50 @@ def Event.Ok (total : Nat) : Event → Prop
   | .allocDims req remaining => 16 * req ≤ remaining ∧ remaining ≤ total
   | .allocElems req remaining => req ≤ remaining ∧ remaining ≤ total
 
+/-- The ghost log as a tree, so that sequencing costs O(1) when the model runs; its meaning is
+`toList`. -/
+inductive Log
+  | nil
+  | one (e : Event)
+  | app (a b : Log)
+  deriving Repr
+
+def Log.toList : Log → List Event
+  | .nil => []
+  | .one e => [e]
+  | .app a b => a.toList ++ b.toList
+
 /-- Result of a reader action: the `Result`, the unread rest (`reader.offset` advanced) and the
 ghost log. -/
 structure W (α : Type) where
   out : Except Err (α × Bytes)
-  log : List Event
+  log : Log
 
-def W.pure (a : α) (rest : Bytes) : W α := ⟨.ok (a, rest), []⟩
-def W.fail (e : Err) : W α := ⟨.error e, []⟩
+def W.pure (a : α) (rest : Bytes) : W α := ⟨.ok (a, rest), .nil⟩
+def W.fail (e : Err) : W α := ⟨.error e, .nil⟩
 /-- `let a = x?; f(a)` on the same reader. -/
 def W.bind (x : W α) (f : α → Bytes → W β) : W β :=
   match x.out with
   | .error e => ⟨.error e, x.log⟩
-  | .ok (a, r) => ⟨(f a r).out, x.log ++ (f a r).log⟩
-def W.emit (ev : Event) (k : W α) : W α := ⟨k.out, ev :: k.log⟩
+  | .ok (a, r) =>
+    let y := f a r
+    ⟨y.out, .app x.log y.log⟩
+def W.emit (ev : Event) (k : W α) : W α := ⟨k.out, .app (.one ev) k.log⟩
 
-/-- `RetainReader::read_bytes(len)`. -/
+/-- `bs.split_at(n)` when `n ≤ bs.len()` (`splitAt?_eq`), in one pass. -/
+def splitAt? : Nat → Bytes → Option (Bytes × Bytes)
+  | 0, bs => some ([], bs)
+  | _ + 1, [] => none
+  | n + 1, b :: bs =>
+    match splitAt? n bs with
+    | none => none
+    | some (x, r) => some (b :: x, r)
+
+/-- `RetainReader::read_bytes(len)`: `end = offset + len; if end > data.len() { truncated }`. -/
 def readBytes (n : Nat) (bs : Bytes) : W Bytes :=
-  if n ≤ bs.length then W.pure (bs.take n) (bs.drop n) else W.fail .truncated
+  match splitAt? n bs with
+  | some (x, r) => W.pure x r
+  | none => W.fail .truncated
 
 /-- `read_u8`. -/
 def readU8 (bs : Bytes) : W UInt8 :=
